@@ -4,8 +4,9 @@ from .common import generic_replay
 
 
 def run(tier):
-    return relcheck.rel_check("C09", ("SYM.",), ["RiemannIG", "Kenamond1", "Kenamond2", "Kenamond3", "DSDcyl"],
-                              ["Mirror", "Boost", "Rigid"], tier)
+    # both Riemann solvers: the general-EOS solver (seconds per solve) on a seeded sample of the same lattice
+    return relcheck.rel_check("C09", ("SYM.",), ["RiemannIG", "RiemannGen", "Kenamond1", "Kenamond2", "Kenamond3", "DSDcyl"],
+                              ["Mirror", "Boost", "Rigid"], tier, sample={"RiemannGen": 48})
 
 
 def replay(path):
